@@ -16,6 +16,7 @@ package middleware
 //@ func generateRequestID
 //@   params ctx opts
 //@   property C19
+//@   locals md:metadata.MD ok:bool id:string
 //@   requires ctx != nil && opts != nil
 //@   requires ctxVal(ctx, ridKey()) == nil || typeIs(ctxVal(ctx, ridKey()), string)
 //@   let md0 = ptr(metadata.MD, mdOf(ctx))
